@@ -132,7 +132,7 @@ func cmdCheck(args []string) int {
 			// a listed finding: reported, never counted as proved
 			if o.Status != "discharged" {
 				if !knownPrinted[o.Name] {
-					fmt.Printf("KNOWN-FINDING: property=%s %s\n", prop, kf.Text)
+					fmt.Printf("KNOWN-FINDING: %s\n", knownText(prop, kf.Text))
 					knownPrinted[o.Name] = true
 				}
 				known++
@@ -178,7 +178,7 @@ func cmdCheck(args []string) int {
 		if f.EngineErr != "" {
 			name := f.Name + "#engine#1"
 			if kf := isKnown(name); kf != nil {
-				fmt.Printf("KNOWN-FINDING: property=%s %s\n", prop, kf.Text)
+				fmt.Printf("KNOWN-FINDING: %s\n", knownText(prop, kf.Text))
 				known++
 				continue
 			}
@@ -411,4 +411,12 @@ func leanFilesFor(prop string) []string {
 		}
 	}
 	return out
+}
+
+// knownText: "property=<id> <what fails>" (the file's entries already start with the property field)
+func knownText(prop, text string) string {
+	if strings.HasPrefix(text, "property=") {
+		return text
+	}
+	return "property=" + prop + " " + text
 }
